@@ -777,6 +777,15 @@ def runAll (fuel : Nat) : State → (bufs : List (List Nat)) → (caps : List Na
       if isTerminal r.code then some r
       else runAll fuel r.st bs [] r.emitted
 
+/-- a whole concatenation: for every member `new_brotli_file`, then `runAll` over that member's
+input buffers under its capacity schedule; stops at the first terminal code -/
+def concatAll (fuel : Nat) : State → List (List (List Nat) × List Nat) → List Nat → Option Run
+  | s, [], acc => some ⟨s, NEEDS_MORE_INPUT, acc⟩
+  | s, (bufs, caps) :: rest, acc =>
+    match runAll fuel (newBrotliFile s) bufs caps acc with
+    | none => none
+    | some r => if isTerminal r.code then some r else concatAll fuel r.st rest r.emitted
+
 /-! ## bit-string view (LSB first inside each byte), used by C03 -/
 
 /-- the low `n` bits of `v`, least significant first -/
